@@ -389,6 +389,10 @@ Lemma parse_mldsa_pub_np kd prefix idreq : parse_mldsa_pub kd prefix idreq <> Pa
 Proof. unfold parse_mldsa_pub. np. Qed.
 Lemma parse_slhdsa_pub_np kd prefix idreq : parse_slhdsa_pub kd prefix idreq <> Panic.
 Proof. unfold parse_slhdsa_pub. np. Qed.
+Lemma parse_mldsa_priv_np kd prefix idreq : parse_mldsa_priv L kd prefix idreq <> Panic.
+Proof. unfold parse_mldsa_priv. np. Qed.
+Lemma parse_jwt_mldsa_priv_np kd prefix idreq : parse_jwt_mldsa_priv L kd prefix idreq <> Panic.
+Proof. unfold parse_jwt_mldsa_priv. np. Qed.
 
 Lemma jwt_ecdsa_pub_of_np fs prefix idreq : jwt_ecdsa_pub_of L fs prefix idreq <> Panic.
 Proof.
@@ -441,7 +445,7 @@ Hint Resolve parse_ed25519_pub_np parse_ed25519_priv_np parse_rsa_priv_np
   parse_ecies_pub_np parse_ecies_priv_np parse_hpke_pub_np parse_hpke_priv_np
   parse_stream_gcm_hkdf_np parse_stream_ctr_hmac_np parse_jwt_hmac_np parse_jwt_rsa_pub_np
   parse_mldsa_pub_np parse_slhdsa_pub_np parse_jwt_ecdsa_pub_np parse_jwt_ecdsa_priv_np parse_slhdsa_priv_np
-  parse_jwt_mldsa_pub_np parse_jwt_rsa_priv_np : npdb.
+  parse_jwt_mldsa_pub_np parse_jwt_rsa_priv_np parse_mldsa_priv_np parse_jwt_mldsa_priv_np : npdb.
 
 Lemma parse_key_more_np kd prefix idreq : parse_key_more L kd prefix idreq <> Panic.
 Proof. unfold parse_key_more. np; auto with npdb. Qed.
@@ -553,6 +557,11 @@ Proof.
   destruct (ec_pub_of_priv L _ dd); [|discriminate]. destruct (beq _ _); [|discriminate].
   inversion H2; subst. cbn [point_shaped]. eapply jwt_ecdsa_pub_of_ok. exact H1.
 Qed.
+Lemma parse_mldsa_priv_point kd prefix idreq d : parse_mldsa_priv L kd prefix idreq = Ok d -> point_shaped d.
+Proof. unfold parse_mldsa_priv. shape. intros H. inversion H. exact I. Qed.
+Lemma parse_jwt_mldsa_priv_point kd prefix idreq d : parse_jwt_mldsa_priv L kd prefix idreq = Ok d -> point_shaped d.
+Proof. unfold parse_jwt_mldsa_priv. shape. intros H. inversion H. exact I. Qed.
+Hint Resolve parse_mldsa_priv_point parse_jwt_mldsa_priv_point : npdb.
 Hint Resolve parse_ed25519_pub_point parse_ed25519_priv_point parse_rsa_priv_point
   parse_ecies_pub_point parse_ecies_priv_point parse_hpke_pub_point parse_hpke_priv_point
   parse_stream_gcm_hkdf_point parse_stream_ctr_hmac_point parse_jwt_hmac_point parse_jwt_rsa_pub_point
@@ -588,7 +597,7 @@ Proof.
     parse_ecies_pub, parse_ecies_priv, parse_hpke_pub, parse_hpke_priv,
     parse_stream_gcm_hkdf, parse_stream_ctr_hmac, parse_jwt_hmac, parse_jwt_ecdsa_pub, parse_jwt_ecdsa_priv,
     parse_jwt_rsa_pub, parse_mldsa_pub, parse_slhdsa_pub, parse_slhdsa_priv,
-    parse_jwt_rsa_priv, parse_jwt_mldsa_pub. kind.
+    parse_jwt_rsa_priv, parse_jwt_mldsa_pub, parse_mldsa_priv, parse_jwt_mldsa_priv. kind.
   all: try (destruct (rsa_crt L _ _ _ _ _) as [[[dp dq] qinv]|]; kind).
   all: repeat (kind; match goal with
        | |- (let (_, _) := ?p in _) = Ok _ -> _ => destruct p
